@@ -632,7 +632,9 @@ fn c06_small_history(rng: &mut Rng, n_ops: usize, ed: &Edges, origin: &str) -> H
     p.max_key = 64;
     let mut gen = Gen::new(rng.next(), ed);
     let keys = gen.keys::<DbBytes>(&p);
-    let big = [1100u32, 2000, 5000, 20000, 70000, 1015, 1020, 3000, 1148];
+    // one history in three works with slots of more than 128 KiB next to small "large" ones (a free slot that is far
+    // bigger than the request is still the slot to take)
+    let big: &[u32] = if rng.chance(1, 3) { &[1100u32, 2000, 140_000, 300_000, 5000, 1148, 135_000, 1020] } else { &[1100u32, 2000, 5000, 20000, 70000, 1015, 1020, 3000, 1148] };
     let mut ops = Vec::new();
     let style = rng.below(3);
     for _ in 0..n_ops {
@@ -640,10 +642,10 @@ fn c06_small_history(rng: &mut Rng, n_ops: usize, ed: &Edges, origin: &str) -> H
         let r = rng.below(100);
         if r < 60 {
             let len = match style {
-                0 => *rng.pick(&big),
+                0 => *rng.pick(big),
                 1 => {
                     if rng.chance(1, 2) {
-                        *rng.pick(&big)
+                        *rng.pick(big)
                     } else {
                         *rng.pick(&ed.val_small)
                     }
@@ -681,7 +683,7 @@ pub fn c06(a: &Args) -> Ctx {
     let n_small = a.get_u64("small", 6) as usize;
     let small_ops = a.get_u64("small_ops", 400) as usize;
     if a.shard == 0 {
-        let mut h = regression_histories().remove(2);
+        let mut h = regression_histories().into_iter().find(|h| h.origin.starts_with("regression D4")).unwrap();
         h.ops.retain(|o| !matches!(o, Op::Stats));
         ctx.evaluations += 1;
         if let Some(stop) = c06_audited_history(a, &h, &mut ctx) {
@@ -988,6 +990,49 @@ pub fn c07_k2_child(a: &Args) -> i32 {
 
 // ---------------------------------------------------------------- C14
 
+/// batches over collision chains of records that fill their slots exactly, while both files cross the 16 KiB offset
+/// width: one call of the batch relocates records (and relinks their chain neighbours) that later calls of the same
+/// batch work on. Element-wise puts and the batch must end in the same map.
+fn c14_exact_fit_history(rng: &mut Rng, n_table: u64, kt: &str) -> History {
+    let nkeys = 1300usize;
+    let mut keys: Vec<Vec<u8>> = Vec::new();
+    for i in 0..nkeys as u32 {
+        let k = match kt {
+            "string" => format!("k{:0w$}", i, w = [10usize, 10, 9, 17][i as usize % 4]).into_bytes(), // 11, 11, 10, 18 bytes
+            _ => {
+                let mut k = format!("b{:0w$}", i, w = [10usize, 9, 10, 17][i as usize % 4]).into_bytes();
+                k[1] = 0xF0 | (i % 7) as u8;
+                k
+            }
+        };
+        keys.push(k);
+    }
+    let mut ops = Vec::new();
+    for i in 0..nkeys {
+        ops.push(Op::Put(i, ValSpec { len: [100u32, 14, 40][i % 3], seed: i as u32, kind: if kt == "string" { 1 } else { 0 } }));
+    }
+    let kind = if kt == "string" { 1 } else { 0 };
+    for round in 0..14u32 {
+        // unsorted batch of early and late keys, no repeats
+        let mut ks: Vec<usize> = Vec::new();
+        let n = rng.range(20, 120) as usize;
+        while ks.len() < n {
+            let k = if rng.chance(2, 3) { rng.below(260) as usize } else { rng.below(nkeys as u64) as usize };
+            if !ks.contains(&k) {
+                ks.push(k);
+            }
+        }
+        let vals: Vec<(usize, ValSpec)> = ks.iter().map(|&k| (k, ValSpec { len: 200 + 37 * round + (k % 5) as u32, seed: round * 1000 + k as u32, kind })).collect();
+        ops.push(if kt == "string" && round % 2 == 1 { Op::BulkPutStr(vals) } else { Op::BulkPut(vals) });
+        if round % 4 == 3 {
+            ops.push(Op::BulkDel(ks.iter().step_by(3).copied().collect()));
+        }
+        ops.push(Op::BulkGet(ks));
+    }
+    ops.push(Op::Flush);
+    History { kt: kt.into(), cfg: default_bufs(Buckets::Size(n_table)), keys, ops, origin: format!("c14 batches over exact-fit collision chains, table {n_table}, {kt}") }
+}
+
 pub fn c14(a: &Args) -> Ctx {
     let mut ctx = Ctx::new("C14", &["C14"], &a.replay_dir, &a.shard_name());
     let ed = edges();
@@ -995,6 +1040,14 @@ pub fn c14(a: &Args) -> Ctx {
     let n_hist = a.get_u64("histories", 3) as usize;
     let n_ops = a.get_u64("ops", 1500) as usize;
     let mon = Mon::default();
+    if a.shard % 5 == 2 {
+        let h = c14_exact_fit_history(&mut rng, [1u64, 8, 64, 1024][(a.shard / 5) % 4], if (a.shard / 5) % 2 == 0 { "bytes" } else { "string" });
+        ctx.count("exact_fit_chain_histories", 1);
+        let mon = Mon { final_sweep: true, ..Default::default() };
+        if run_and_record(a, &h, &mon, &mut ctx, "xf") {
+            return ctx;
+        }
+    }
     for i in 0..n_hist {
         let kt = KT_NAMES[(a.shard + i) % 5];
         let mut p = Profile::base(*rng.pick(&[20usize, 100, 400]), n_ops);
@@ -1034,7 +1087,7 @@ pub fn c17(a: &Args) -> Ctx {
     let n_ops = a.get_u64("ops", 2500) as usize;
     let mon = Mon { decode_at_sync: true, stats_at_sync: true, ..Default::default() };
     if a.shard == 0 {
-        let mut h = regression_histories().remove(2);
+        let mut h = regression_histories().into_iter().find(|h| h.origin.starts_with("regression D4")).unwrap();
         h.ops.push(Op::Flush);
         if run_and_record(a, &h, &mon, &mut ctx, "reg") {
             return ctx;
